@@ -101,6 +101,11 @@ def make_case(cid, rng, schema, root, n_ops, every, name_k=0):
         # a second life in the same place, within the same process: the library is deleted and a new one of the same version
         # is started there with one track and one crate; nothing of the first may show, and the new content must survive a reopen
         from .. import gen_snap as GS
+        if name_k % 6 == 5:
+            # ... while somebody in the process still holds the FIRST library, loaded from the same path, open (a stale browser
+            # window): the files it has open are unlinked, the new library must not be confused with it
+            full += [{"op": "load", "dir": d, "lib": 1}]
+            marks += [{"kind": "stale_holder"}]
         full += [{"op": "release_all"}, {"op": "wipe_dir", "dir": d},
                  {"op": "lib_create" if is_v2(schema) else "create", "schema": schema, "dir": d},
                  {"op": "create_track", "as": "n0", "snap": {"relative_path": GS.hx("second/life.mp3"), "title": GS.hx("second life")}},
@@ -148,7 +153,9 @@ def judge_case(ctx, res):
                 return
             r = ev["ret"]
             ctx.bump("reopens")
-            if r["conns_after_release"] != 0:
+            # (the connection of a deliberately held stale library in the other slot is not a leak)
+            held = 1 if any(mm and mm.get("kind") == "stale_holder" for mm in marks[:k]) else 0
+            if r["conns_after_release"] != held:
                 ctx.violation(f"connection-leak {fam}", f"{schema}: {r['conns_after_release']} SQLite connection(s) still open after every handle was released", wit)
             if r["loaded_schema"] != schema:
                 ctx.violation(f"loaded-schema-wrong {fam}", f"{schema}: load_database reported loaded_schema = {r['loaded_schema']!r}", wit)
@@ -188,6 +195,8 @@ def judge_case(ctx, res):
                 ctx.violation(f"create_or_load-created-over-existing {fam}", f"{schema}: create_or_load reported created=true for an existing library", wit)
             if r["loaded_schema"] != schema or r["version_name"] != schema:
                 ctx.violation(f"create_or_load-schema-wrong {fam}", f"{schema}: create_or_load on an existing library reports {r['loaded_schema']!r}/{r['version_name']!r}", wit)
+        elif kind == "stale_holder":
+            ctx.bump("second_life_cases_with_the_first_library_still_held_open")
         elif kind == "second_life":
             ctx.bump("second_life_cases")
             if "ret" in ev:
@@ -355,6 +364,8 @@ def replay(ctx, doc):
                 if k == "wipe_dir":
                     wiped = True
                     marks.append(None)
+                elif k == "load" and o.get("lib"):
+                    marks.append({"kind": "stale_holder"})
                 elif wiped and k == "observe_all":
                     marks.append({"kind": "second_life"})
                 elif wiped and k != "reopen":
